@@ -44,13 +44,21 @@ def get_cfg(name):
             from cardutil.config import config
             _CFG[name] = config['bit_config']
         elif name.startswith('GEN'):
-            s = int(name[3:])
+            # 'GENs' ascending key order; 'GENsS' the same configuration with its keys in string-sorted order
+            # ('10' < '100' < '11' < ... < '2'), as a caller loading it from JSON written with sort_keys would have
+            shuffled = name.endswith('S')
+            s = int(name[3:].rstrip('S'))
             cfg = {'1': {'field_name': 'Bitmap secondary', 'field_type': 'FIXED', 'field_length': 8}}
             for b in range(2, 128):
                 k = dict(KINDS[(b + s) % len(KINDS)])
                 k['field_name'] = 'generated %d' % b
                 cfg[str(b)] = k
+            if shuffled:
+                cfg = {k: cfg[k] for k in sorted(cfg)}
             _CFG[name] = cfg
+        elif name == 'PKGS':
+            from cardutil.config import config
+            _CFG[name] = {k: config['bit_config'][k] for k in sorted(config['bit_config'])}
         else:
             raise ValueError(name)
     return _CFG[name]
